@@ -413,7 +413,8 @@ def streamTraceTok (t : List Stream.Ev) : String :=
   if t.isEmpty then "-" else ",".intercalate (t.map streamEvTok)
 
 def lagAnswer (d la : Nat) (ends outEnds : List Nat) (tr : List Stream.Ev) : String :=
-  match Stream.lagFirstBad d la ends outEnds tr with
+  -- one pass when `ends` is nondecreasing (`Lemmas/Stream.lagFirstBadFast_eq`: same answer)
+  match Stream.lagFirstBadFast d la ends outEnds tr with
   | none => "ok"
   | some i => s!"bad:{i}"
 
